@@ -256,3 +256,18 @@ PyNode.build_native = _py_build_native
 
 # (C02) nodes of a tree in ast.NodeVisitor visiting order (depth-first pre-order, each node exactly once)
 PyNode.attrs["visit_order"] = SeqOf(PyNode)
+
+
+# (C16) trusted tree-sitter fact: trees come from Parser.parse(bytes), so tokens carry their text; instantiated for the
+# member-name tokens whose text the SRP TypeScript metrics read without a None check
+_ts_on_attr_base = TSNode.on_attr
+
+
+def _ts_on_attr_text(ex, node, attr, v):
+    _ts_on_attr_base(ex, node, attr, v)
+    if attr == "text":
+        ex.ufs_used.add("tree: a property_identifier token carries its text (parse trees keep the source bytes)")
+        ex.assume(z3.Implies(TSNode.attr_func("type")(node.t) == z3.StringVal("property_identifier"), z3.Not(v.isnone)))
+
+
+TSNode.on_attr = _ts_on_attr_text
